@@ -613,7 +613,7 @@ static void op_make_correlated(vinfo_t *v, int other, int ns, int nullf,
     int h;
 
     for (int i = 0; i < ns && i < 4; ++i) {
-	sfv[i] = f_of(grid[i]);
+	sfv[i] = nullf ? 0.0 : f_of(grid[i]);	/* grid has ns entries unless nullf */
 	sv[i] = spos ? 0.01 * (i + 1) : (i == ns - 1 ? 0.0 : 0.01);
     }
     if (ns < 1)
